@@ -1,6 +1,7 @@
 LC_HEADER = ('From LC Require Import Lib.Bytes Model.MountInfo Model.FsTree Model.Kernel Model.Layers Cases.LC Cases.C01.\n'
              'Open Scope string_scope.\n')
 PROP = dict(
+    pidns=True,
     go='c01', n_quick=240, n_thorough=2400,
     coq_header=LC_HEADER,
     referee='cdom', referee_quick=3, referee_thorough=40,
